@@ -30,6 +30,8 @@ TEMPLATES = [
     'INC (IX+{o})', 'DEC (IY-{o})', 'LD A,{b}+{b2}', 'LD HL,{w}-{b}', 'LD A,({w}+{b})',
     'DEFB {b}', 'DEFB {b},{b2}', 'DEFB {b},"a;b",{b2}', 'DEFM "x",{b}', 'DEFM {b},"{{",{b2}', 'DEFW {w}', 'DEFW {w},{b}', 'DEFS {n},{b}', 'DEFS {n}',
     'DEFB %{bin8},{b}', 'DEFB "1",{b}', 'DEFB {b}*2+1', 'DEFW {w}/2', 'DEFB "$5",{b}',
+    # strings with escapes followed by strings with letters, character operands
+    'DEFM "C:\\\\","Ab",{b}', 'DEFM "a\\"b","Cd",{b}', 'DEFB "\\\\",{b},"Ef"', 'LD A,"B"', 'CP "a"', 'DEFB "a"+{b2},"Q"', 'LD (IX+{o}),"z"', 'DEFM "Hi;$1f ab",{b}',
 ]
 SPELLINGS = ('dec', 'hex', 'hexl')
 TARGETS = [(10, 0), (16, 0), (16, 1), (16, 2), (10, 1), (0, 2), (0, 1)]     # (base, case)
@@ -155,6 +157,65 @@ c40000 LD A,{b0}
 w40016 DEFW 40010,40015,{w0}
  40022 DEFB {b2}
 """),
+    # insert-before and overwrite on the same instruction, the overwriting instruction longer than the original; append after an
+    # overwrite; overwrite chains
+    'reloc2': dict(relocating=True, window=(16384, 40040), wvalues=(16384, 39999, 40000, 40007, 40011, 40030), text="""@start
+@org
+@label=START
+c40000 LD A,{b0}
+@rsub=>INC A
+@rsub=|LD BC,{w0}
+ 40002 LD C,1
+ 40004 LD B,A
+ 40005 XOR A
+@label=MID
+ 40006 INC HL
+@ssub=|LD DE,{w0}
+@ssub=+LD A,{b1}
+@label=NEXT
+ 40007 LD E,{b2}
+ 40009 LD D,0
+@label=END
+ 40011 JP 40000
+ 40014 DEFW 40007,40011
+"""),
+    # @keep / @nowarn on an instruction that also has inserted instructions, while instructions move
+    'keep': dict(relocating=True, window=(16384, 40040), wvalues=(16384, 39999, 40000, 40001, 40002, 40030), text="""@start
+@org
+@label=START
+c40000 XOR A
+@rsub=>INC A
+@label=TWO
+ 40001 INC B
+@keep
+@rsub=+LD HL,40001
+@label=THREE
+ 40002 INC C
+@nowarn
+@ssub=+LD DE,{w0}
+ 40003 LD A,{b0}
+@keep=40001
+@ssub=>LD BC,40001
+ 40005 LD HL,40002
+ 40008 RET
+"""),
+    # chains of overwriting instructions of unchanged total size (nothing moves: the parser snapshot is compared too)
+    'chain': dict(relocating=False, window=(39998, 40030), text="""@start
+@org
+@label=START
+c40000 LD A,{b0}
+@ssub=|XOR A
+@ssub=|INC A
+ 40002 NOP
+ 40003 NOP
+@ofix=|LD B,{b1}
+ 40004 LD C,{b2}
+@isub=|LD DE,{w0}
+@isub=|LD A,{b1}
+ 40006 LD HL,0
+ 40009 LD A,0
+ 40011 RET
+"""),
     # @if, block directives, a second @org with a gap, @equ
     'blocks': dict(relocating=False, window=(39998, 40030), text="""@start
 @equ=PORT=254
@@ -276,23 +337,40 @@ def check_pipe(item):
                                           case=dict(kind='pipe', tname=tname, am=am, fm=fm, spelling=spelling, vals=vv)))
             return
         vals, bw, outs = out
-        diffs, names = [], []
+        groups = {'asm': ([], []), 'snapshot': ([], [])}
         for desc, x, y in pipe_diffs(bw, outs, t['relocating']):
+            diffs, names = groups['snapshot' if desc.startswith('parser snapshot') else 'asm']
             if x is None:
                 diffs.append(z3.BoolVal(True))
             else:
                 diffs.append(bv(x) != bv(y))
             names.append(desc)
         if p.data.get('radix_confusion'):
-            diffs.append(z3.BoolVal(True)); names.append('a numeral is parsed in the wrong radix')
-        r, mod, which = p.check_any(diffs, names)
-        if r == 'unknown':
-            res['inconclusive'].append(name); return
-        if r == 'sat':
-            vv = {k: mod.eval(x.e, model_completion=True).as_long() for k, x in vals.items()}
-            res['violations'].append(dict(key='%s:%s' % (name, re.sub(r'\d+$', '', which[0])[:70]), text='%s with %r: %s differs from skool2bin' % (name, vv, which[0]),
-                                          case=dict(kind='pipe', tname=tname, am=am, fm=fm, spelling=spelling, vals=vv)))
+            groups['asm'][0].append(z3.BoolVal(True)); groups['asm'][1].append('a numeral is parsed in the wrong radix')
+        failed = False
+        # the two claims are decided separately (a finding about the snapshot must not hide a difference between the tools)
+        for gname, (diffs, names) in groups.items():
+            if not diffs:
+                continue
+            if gname == 'snapshot':
+                res['obligations'] += 1
+            r, mod, which = p.check_any(diffs, names)
+            if r == 'unknown':
+                res['inconclusive'].append(name); failed = True; continue
+            if r == 'sat':
+                vv = {k: mod.eval(x.e, model_completion=True).as_long() for k, x in vals.items()}
+                key = '%s:%s' % (name, re.sub(r'\d+$', '', which[0])[:70])
+                if gname == 'snapshot':
+                    key = 'pipeline %s:parser snapshot' % tname          # one finding per template, whatever the mode
+                res['violations'].append(dict(key=key, text='%s with %r: %s differs from skool2bin' % (name, vv, which[0]),
+                                              case=dict(kind='pipe', tname=tname, am=am, fm=fm, spelling=spelling, vals=vv, group=gname)))
+                failed = True
+                continue
+            if gname == 'snapshot':
+                res['discharged'] += 1
+        if failed:
             return
+        diffs = groups['asm'][0] + groups['snapshot'][0]
         res['discharged'] += 1
         res['nontrivial'] += 1
         if not res['samples']:
@@ -317,7 +395,9 @@ def replay_pipe(case):
             bw, outs = run_pipes(pipe, text, case['am'], case['fm'], OPTS_ALL, t['relocating'])
         except Exception as e:
             return True, 'raises %r' % e
-        bad = [desc + ': %r vs skool2bin %r' % (x, y) for desc, x, y in pipe_diffs(bw, outs, t['relocating']) if x != y]
+        grp = case.get('group')
+        bad = [desc + ': %r vs skool2bin %r' % (x, y) for desc, x, y in pipe_diffs(bw, outs, t['relocating'])
+               if x != y and (grp is None or (grp == 'snapshot') == desc.startswith('parser snapshot'))]
         return bool(bad), '; '.join(bad[:3]) or 'images agree'
     finally:
         pipe.close()
@@ -437,7 +517,7 @@ def main():
                     for spelling in (('dec',) if args.tier == 'quick' else ('dec', 'hex')):
                         items.append(('pipe', tname, am, fm, group, spelling, args.tier))
     if args.only:
-        items = [i for i in items if args.only in harness.item_name(i) or args.only in TEMPLATES[i[1]]]
+        items = [i for i in items if args.only in harness.item_name(i) or (i[0] == 'convert' and args.only in TEMPLATES[i[1]])]
     rep = harness.Report(
         PROP, args,
         functions=['skoolkit.skoolparser.InstructionUtility.convert / _convert_base / _convert_case', 'skoolkit.skoolparser._replace_nums', 'skoolkit.z80.Assembler._assemble / convert_case / split_operation'],
